@@ -76,4 +76,27 @@ theorem handed_out_only_from_usable (m : List Region) (ksA keA : Nat) (hs : Sort
   rw [e] at this
   exact this
 
+/-- **any_map_order** — the bitmap allocator does not depend on the order in which the memory map
+lists its regions: for any map of pairwise non-overlapping regions (ascending, descending or
+shuffled) the freshly set-up pools satisfy the invariant, so `alloc_refines`, `free_refines`,
+`exclusive` and `conservation` apply to them, and every frame handed out in any history is a whole
+frame of an available region and not held by anybody else. (Only the early allocator's
+"ascending" claims of C02 and the end-to-end statement above use `SortedMap`.) -/
+theorem any_map_order (m : List Region) (hd : DisjointMap m) (hsm : nSum (poolsOf m) < 4294967296)
+    (ops : List Op) (hc : Contract (bm0 m) [] ops) :
+    Inv (bm0 m) ∧ TraceOk (managed (ranges (poolsOf m))) (runOps (bm0 m) [] ops).2.2 := by
+  have hI := bm0_inv_any hd hsm
+  refine ⟨hI, ?_⟩
+  have := exclusive _ hI ops hc
+  have e : isFree (bm0 m) = managed (ranges (poolsOf m)) := funext fun g => propext (bm0_isFree m g)
+  rw [e] at this
+  exact this
+
+/-- non-vacuity: a map that lists a higher region before a lower one -/
+def exDescending : List Region :=
+  [{ addr := 0x200000, len := 0x40000, typ := 1 }, { addr := 0x9000, len := 0x8800, typ := 1 },
+   { addr := 0x100000, len := 0x3000, typ := 2 }]
+example : DisjointMap exDescending ∧ ¬ SortedMap exDescending ∧ nSum (poolsOf exDescending) < 4294967296 := by
+  refine ⟨by unfold DisjointMap exDescending; decide, by unfold SortedMap exDescending; decide, by decide⟩
+
 end Firefly.C01
